@@ -75,6 +75,25 @@ def build_value(desc, wrap, alias=False):
     return pt.build(desc, payload)
 
 
+def plain_parts(plain):
+    """plain = [when, name, size | shape, mods?] -> (token, shape)"""
+    mods = plain[3] if len(plain) > 3 else ""
+    shape = tuple(plain[2]) if isinstance(plain[2], (list, tuple)) else (plain[2],)
+    return dl.Token(mods, "name", plain[1]), shape
+
+
+def toggle_broadcast(toks):
+    """the same spec with '#' toggled on every per-leaf ('?') token"""
+    out = []
+    for t in toks:
+        if "?" in t.mods:
+            t2 = dl.Token(t.mods.replace("#", "") if "#" in t.mods else "#" + t.mods, t.base_kind, t.base, t.doc, t.docpos)
+            out.append(t2 if t2.legal() else t)
+        else:
+            out.append(t)
+    return out
+
+
 def check_case(ctx, case):
     obs.reset_state()
     toks = [c01.tok_from_json(j) for j in case["tokens"]]
@@ -83,6 +102,10 @@ def check_case(ctx, case):
     wrap = case["wrap"]
     L = leaf_annotation(spec, wrap)
     trees = [gt.from_json(t) for t in case["trees"]]
+    alt_last = bool(case.get("alt_last")) and len(trees) >= 2  # the last tree is annotated with the '#'-toggled spec
+    alt_toks = toggle_broadcast(toks)
+    alt_spec = dl.spec_spelling(alt_toks)
+    alt_meanings = [t.meaning() for t in alt_toks]
     # ---- model
     m = dl.MCtx()
     verdicts = []
@@ -96,28 +119,30 @@ def check_case(ctx, case):
     allowed_all = {dl.TRUE}
     for kind, i in order:
         if kind == "plain":
-            o = dl.match([("named", plain[1], False, False)], (plain[2],), m)
+            ptok, pshape = plain_parts(plain)
+            o = dl.match([ptok.meaning()], pshape, m)
             al, newm = set(o.allowed), (o.ctx or m)
         else:
-            al, newm, _, _ = model_pytree_check(m, meanings, "T", trees[i], accept_payload=(lambda p: p == "int") if wrap == "union" else None,
+            al, newm, _, _ = model_pytree_check(m, alt_meanings if (alt_last and i == len(trees) - 1) else meanings, "T", trees[i], accept_payload=(lambda p: p == "int") if wrap == "union" else None,
                                                 single_position=(wrap == "nested"))
         if al != {dl.TRUE}:
             allowed_all = al
             break
         m = newm
     # ---- real
-    desc = f"L={wrap}[{spec!r}] trees={case['trees']} plain={plain}"
+    desc = f"L={wrap}[{spec!r}] trees={case['trees']} plain={plain}" + (f" last tree annotated {alt_spec!r}" if alt_last else "")
     for ck in ("typeguard", "beartype"):
-        ns = {"PT": PyTree[L, "T"], "__name__": "vf_generated"}
+        ns = {"PT": PyTree[L, "T"], "PTALT": PyTree[leaf_annotation(alt_spec, wrap), "T"], "__name__": "vf_generated"}
         params = []
         vals = []
         for kind, i in order:
             if kind == "plain":
-                ns["PL"] = Shaped[np.ndarray, plain[1]]
+                ptok, pshape = plain_parts(plain)
+                ns["PL"] = Shaped[np.ndarray, ptok.spelling()]
                 params.append("w: PL")
-                vals.append(np.zeros((plain[2],)))
+                vals.append(np.zeros(pshape))
             else:
-                params.append(f"t{i}: PT")
+                params.append(f"t{i}: PTALT" if (alt_last and i == len(trees) - 1) else f"t{i}: PT")
                 vals.append(build_value(trees[i], wrap, alias=bool(case.get('alias'))))
         src = f"def fn({', '.join(params)}):\n    return None\n"
         exec(compile(src, "<vf-c16>", "exec"), ns)
@@ -148,7 +173,7 @@ def check_case(ctx, case):
                 sizes_by_pos[i] = tuple(lf[1])
     nontrivial = len(trees) >= 2 and len(set(sizes_by_pos.values())) >= 2
     ctx.note([spec, wrap, case["trees"], plain], nontrivial,
-             classes=[f"wrap-{wrap}", f"ntrees-{len(trees)}", f"verdict-{'+'.join(sorted(allowed_all))}", f"mutation-{case['mutation']}"] + (["plain-same-name"] if plain else []) + (["aliased-leaves"] if case.get("alias") else []),
+             classes=[f"wrap-{wrap}", f"ntrees-{len(trees)}", f"verdict-{'+'.join(sorted(allowed_all))}", f"mutation-{case['mutation']}"] + (["plain-same-name"] if plain else []) + (["plain-variadic"] if plain and len(plain) > 3 and "*" in plain[3] else []) + (["alt-last"] if alt_last else []) + (["aliased-leaves"] if case.get("alias") else []),
              sample={"spec": spec, "wrap": wrap, "trees": case["trees"], "plain": plain, "accepted": sorted(allowed_all)})
 
 
@@ -244,8 +269,11 @@ def c16_case(draw):
     if wrap == "union":
         int_positions = {i for i in range(nl) if draw(st.integers(0, 3)) == 0}
     alias = draw(st.sampled_from([True, False, False]))
+    alt_last = ntrees >= 2 and draw(st.integers(0, 3)) == 0
+    alt_meanings = [t.meaning() for t in toggle_broadcast(toks)]
     for ti in range(ntrees):
         shapes = []
+        cur_meanings = alt_meanings if (alt_last and ti == ntrees - 1) else meanings
         for i in range(nl):
             if i in int_positions:
                 shapes.append("int")
@@ -255,8 +283,10 @@ def c16_case(draw):
             if alias and ti == 0 and prev and draw(st.integers(0, 3)) != 0:
                 shp = tuple(prev[0])  # tied weights: later positions repeat the first leaf's shape
             else:
-                shp, _ = draw(gd.shape_for(meanings, m, mutate_prob=0.0, label=label))
-            o = dl.match(meanings, shp, m, label=label, in_structured=1)
+                shp, _ = draw(gd.shape_for(cur_meanings, m, mutate_prob=0.0, label=label))
+                if alt_last and ti == 0 and shp and draw(st.integers(0, 2)) == 0:
+                    shp = tuple(1 if draw(st.integers(0, 1)) == 0 else d for d in shp)  # size-1 axes: '#' matters later
+            o = dl.match(cur_meanings, shp, m, label=label, in_structured=1)
             if o.ctx is not None:
                 m = o.ctx
             shapes.append(list(shp))
@@ -282,7 +312,11 @@ def c16_case(draw):
     plain = None
     if draw(st.integers(0, 2)) == 0:
         plain = [draw(st.sampled_from(["before", "after"])), draw(st.sampled_from(["foo", "a"])), draw(st.sampled_from([2, 3, 5]))]
-    return {"tokens": [c01.tok_json(t) for t in toks], "wrap": wrap, "trees": [gt.to_json(t) for t in trees], "plain": plain, "mutation": mutation,
+        vnames = sorted({t.base for t in toks if t.base_kind == "name" and "*" in t.mods})
+        if vnames and draw(st.integers(0, 2)) != 0:
+            # a variadic parameter of the same name as the per-leaf variadic axis: the two never interact
+            plain = [draw(st.sampled_from(["after", "before"])), vnames[0], draw(st.lists(st.sampled_from([7, 2, 3, 1]), max_size=3)), draw(st.sampled_from(["*", "*#"]))]
+    return {"alt_last": alt_last,"tokens": [c01.tok_json(t) for t in toks], "wrap": wrap, "trees": [gt.to_json(t) for t in trees], "plain": plain, "mutation": mutation,
             "alias": alias}
 
 
